@@ -68,6 +68,7 @@ type tracker struct {
 	failedSeen  bool
 	interesting bool
 	history     *metax.History // names / ids handed out so far (the history clauses of the oracle)
+	resharded   bool           // a ReSharding split the last group: the new group lies inside the old one's span
 	ownerless   bool           // ReSharding asked for more shards than there are partitions: a shard without owner and index
 	dropped     bool           // a DropMeasurement purged an entry
 	recreated   bool           // a measurement was created after a purge (the life cycle went round)
@@ -94,6 +95,7 @@ func (t *tracker) step(in *metax.Inst, cmd metax.Cmd) bool {
 	c := t.c
 	before := in.DumpCatalogue().String()
 	liveGroups, sgDur := groupFacts(in)
+	marksBefore := markedObjects(in, strings.HasPrefix(cmd.Text, "PruneGroups 1 "))
 	res := in.Apply(cmd)
 	t.hist = append(t.hist, cmd.Text+" => "+res.String())
 	c.Count("cmd:" + cmd.Kind)
@@ -107,6 +109,7 @@ func (t *tracker) step(in *metax.Inst, cmd metax.Cmd) bool {
 		c.Violation(ln, class, fmt.Sprintf("%s panics: %s after %s", cmd.Kind, res.Err, strings.Join(tail(t.hist, 10), " | ")))
 		return false
 	}
+	t.pruneMarksOnlyItsTarget(in, cmd, marksBefore, ln)
 	after := in.DumpCatalogue()
 	if !res.OK {
 		c.Count("err:" + cmd.Kind)
@@ -141,6 +144,8 @@ func (t *tracker) step(in *metax.Inst, cmd metax.Cmd) bool {
 					t.cancelled = true
 				}
 			}
+		case "ReSharding":
+			t.resharded = true
 		case "PruneGroups":
 			if strings.HasPrefix(cmd.Text, "PruneGroups 0 ") {
 				t.idxPruned = true
@@ -198,6 +203,8 @@ func (t *tracker) classify(clause string) string {
 			return "group_start_before_int64_range"
 		case t.beyondMax && clause == "disjoint":
 			return "group_beyond_max_nanotime"
+		case t.resharded:
+			return "resharding_splits_inside_last_group"
 		case t.durChanged:
 			return "group_after_duration_change"
 		case t.cancelled:
@@ -377,6 +384,50 @@ func allKindsLog(c *hx.Ctx, r *hx.Rng, logLen int) {
 	c.Case("all|"+strings.Join(t.hist, "|"), t.failedSeen || t.recreated)
 }
 
+// markedObjects: ids of the shards (true) / indexes (false) that carry MarkDelete.
+func markedObjects(in *metax.Inst, shards bool) map[uint64]bool {
+	out := map[uint64]bool{}
+	for _, db := range in.Data().Databases {
+		for _, rp := range db.RetentionPolicies {
+			if shards {
+				for i := range rp.ShardGroups {
+					for _, s := range rp.ShardGroups[i].Shards {
+						if s.MarkDelete {
+							out[s.ID] = true
+						}
+					}
+				}
+			} else {
+				for i := range rp.IndexGroups {
+					for _, x := range rp.IndexGroups[i].Indexes {
+						if x.MarkDelete {
+							out[x.ID] = true
+						}
+					}
+				}
+			}
+		}
+	}
+	return out
+}
+
+// pruneMarksOnlyItsTarget: PruneGroups(kind, id) may mark the object with that id and nothing
+// else (the ids of a group are not contiguous after ExpandGroups).
+func (t *tracker) pruneMarksOnlyItsTarget(in *metax.Inst, cmd metax.Cmd, before map[uint64]bool, ln int) {
+	w := strings.Fields(cmd.Text)
+	if cmd.Kind != "PruneGroups" || len(w) != 3 {
+		return
+	}
+	var id uint64
+	fmt.Sscan(w[2], &id)
+	for got := range markedObjects(in, w[1] == "1") {
+		if !before[got] && got != id && !t.reported["prune_marked_other_object"] {
+			t.reported["prune_marked_other_object"] = true
+			t.c.Violation(ln, "prune_marked_other_object", fmt.Sprintf("%s marked object %d after %s", cmd.Text, got, strings.Join(tail(t.hist, 14), " | ")))
+		}
+	}
+}
+
 func hasOwnerlessShard(in *metax.Inst) bool {
 	for _, db := range in.Data().Databases {
 		for _, rp := range db.RetentionPolicies {
@@ -399,11 +450,15 @@ var layoutFree = map[string]bool{"ids": true, "counters": true, "refs": true, "d
 
 func (t *tracker) stepOracleOnly(in *metax.Inst, cmd metax.Cmd) bool {
 	c := t.c
+	marksBefore := markedObjects(in, strings.HasPrefix(cmd.Text, "PruneGroups 1 "))
 	res := in.Apply(cmd)
 	t.hist = append(t.hist, cmd.Desc+" => "+res.String())
 	c.Count("all-cmd:" + cmd.Kind)
 	line := "note all " + cmd.Kind + " " + res.String()
 	ln := c.Emit(line, line)
+	if !res.Panic {
+		t.pruneMarksOnlyItsTarget(in, cmd, marksBefore, ln)
+	}
 	if res.Panic {
 		c.Count("all-panic:" + cmd.Kind)
 		return false // C15 records and classifies the panics of the unmodelled commands
@@ -473,6 +528,8 @@ func alphabet() []metax.Cmd {
 		mk("MarkMeasurementDelete db0 autogen m0"),
 		mk("DropMeasurement db0 autogen m0_0000"),
 		mk("CreateMeasurement db0 autogen m0 hash:t0 0 f0:1:_"),
+		// after the second data node: every group gets a shard and an index for the new partition
+		mk("ExpandGroups"),
 	}
 }
 
